@@ -82,7 +82,11 @@ def run(ctx):
     for i, (cap, b) in enumerate(chosen):
         # histories that switch the client's protocol version need a multi-version protocol: TLS
         tls_only = any(o["op"] == "vers" or o.get("vers") == 11 for o in b)
-        hist.append({"proto": "tls" if tls_only or i % 3 == 2 else "gm", "cap": cap, "ops": b})
+        # every fifth history runs against the auto-switch server (NewBasicAutoSwitchConfig) instead of a single-protocol one
+        proto = "tls" if tls_only or i % 3 == 2 else "gm"
+        if i % 5 == 4:
+            proto = "auto_" + proto
+        hist.append({"proto": proto, "cap": cap, "ops": b})
     # the abstract Tamper at every byte of the ticket (thorough) / a seeded sample: connect, tamper(byte), connect
     tam = []
     base = [{"op": "connect", "name": "a", "offered": False, "expect": "full", "sid": 1, "suite": "CBC", "hascert": False}]
